@@ -840,9 +840,29 @@ impl Paragraph {
         }
     }
 
+    /// Make sure the text of this paragraph ends in a newline, so that
+    /// an entry appended to it starts on a line of its own.
+    fn ensure_trailing_newline(&self) {
+        if let Some(last) = self.0.last_token() {
+            if last.kind() != NEWLINE {
+                let mut builder = GreenNodeBuilder::new();
+                builder.start_node(ENTRY.into());
+                builder.token(NEWLINE.into(), "\n");
+                builder.finish_node();
+                let newline = SyntaxNode::new_root_mut(builder.finish())
+                    .first_token()
+                    .unwrap();
+                let parent = last.parent().unwrap();
+                let count = parent.children_with_tokens().count();
+                parent.splice_children(count..count, vec![newline.into()]);
+            }
+        }
+    }
+
     /// Insert a new field
     pub fn insert(&mut self, key: &str, value: &str) {
         let entry = Entry::new(key, value);
+        self.ensure_trailing_newline();
         let count = self.0.children_with_tokens().count();
         self.0.splice_children(count..count, vec![entry.0.into()]);
     }
@@ -860,6 +880,7 @@ impl Paragraph {
                 return;
             }
         }
+        self.ensure_trailing_newline();
         let count = self.0.children_with_tokens().count();
         self.0
             .splice_children(count..count, vec![new_entry.0.into()]);
